@@ -73,8 +73,9 @@ def dense_case():
 @clause('dense_family', strategy=dense_case, quick=300, thorough=20000,
         quick_shards=6, x64=True, shrink=False,
         rule='Dense / DenseGeneral (features tuples, contracted axis tuples '
-        'incl. negative indices, leading batch_dims) / Einsum on inputs of '
-        'rank 1-4: output equals np.einsum of input and kernel plus bias; '
+        'incl. negative indices, leading batch_dims) / Einsum (Linen and NNX, '
+        'with bias, equation from the constructor or overridden at call time) '
+        'on inputs of rank 1-4: output equals np.einsum of input and kernel plus bias; '
         'non-trivial = >=2 contracted axes, a feature tuple or batch_dims')
 def dense_family(case, ctx):
   rng = np.random.default_rng(case['seed'])
@@ -99,14 +100,49 @@ def dense_family(case, ctx):
     letters = 'abcd'[:r]
     es = f'{letters},{letters[-1]}z->{letters[:-1]}z'
     f = case['features'][0]
-    m = f64(nn.Einsum, (shape[-1], f), es, use_bias=False)
-    with sut('Einsum'):
-      v = unfreeze(m.init(KEY(0), x))
-      v = {'params': randomize(v['params'], rng)}
-      y = m.apply(v, x)
-    ref = np.einsum(es, np.asarray(x), np.asarray(v['params']['kernel']))
-    require(close(y, ref), f'Einsum({es}) != np.einsum')
-    ctx.note(labels=['einsum'], nontrivial=r >= 2)
+    # optionally another equation is given at call time (it takes precedence
+    # over the constructor's): same contraction, the kernel's output axis
+    # first instead of last
+    es_call = f'{letters},{letters[-1]}z->z{letters[:-1]}' \
+        if case['axis_pick'] % 2 == 0 else None
+    es_used = es_call or es
+    use_bias = case['use_bias']
+    api = 'nnx' if case['n_axis'] == 2 else 'linen'
+    K = rnd(rng, (shape[-1], f))
+    B = rnd(rng, (f,))
+    if api == 'linen':
+      # (Linen accepts the equation either in the constructor or at call
+      # time, not both)
+      m = f64(nn.Einsum, (shape[-1], f), None if es_call else es,
+              use_bias=use_bias)
+      with sut('Einsum'):
+        v = unfreeze(m.init(KEY(0), x, es) if es_call else m.init(KEY(0), x))
+        require(np.shape(v['params']['kernel']) == K.shape and (
+            not use_bias or np.shape(v['params']['bias']) == B.shape),
+                lambda: 'Einsum parameter shapes '
+                f'{jax.tree_util.tree_map(np.shape, v["params"])}')
+        v = {'params': dict(kernel=jnp.asarray(K), **(
+            {'bias': jnp.asarray(B)} if use_bias else {}))}
+        y = m.apply(v, x, es_call) if es_call else m.apply(v, x)
+    else:
+      with sut('nnx.Einsum'):
+        m = nnx.Einsum(es, (shape[-1], f), (f,) if use_bias else None,
+                       dtype=jnp.float64, param_dtype=jnp.float64,
+                       rngs=nnx.Rngs(0))
+        m.kernel.value = jnp.asarray(K)
+        if use_bias:
+          m.bias.value = jnp.asarray(B)
+        y = m(x, es_call) if es_call else m(x)
+    ref = np.einsum(es_used, np.asarray(x), K)
+    if use_bias:
+      # the bias runs along the kernel's surviving axis (z) of the result
+      ref = ref + (B.reshape((f,) + (1,) * (r - 1)) if es_call else B)
+    require(close(y, ref), lambda: f'{api} Einsum({es})(x'
+            + (f', {es_call!r}' if es_call else '') + ') != np.einsum'
+            + (' + bias along the kernel\'s output axis' if use_bias else ''))
+    ctx.note(labels=['einsum', api, 'bias' if use_bias else 'nobias',
+                     'call-time-eq' if es_call else 'ctor-eq'],
+             nontrivial=r >= 2)
     return
   nb = min(case['n_batch'], r - 1)
   free = list(range(nb, r))
